@@ -17,7 +17,17 @@ register `type(reg).from_num(reg.color)` it denotes):
  {"arch", "fn", "ok": bool, "exc": str,
   "regs":   [{"n": name, "cls": class name, "p": bool (machine register), "sub": [rid...]}]   index = rid
   "rounds": [[ins...]...]         instruction list at every init_data (last one = L of ColourCheck)
-  "steps":  [[step...]...]        per round: work-list steps (for IRC trace validation)
+  "steps":  [[step...]...]        per round (recording(steps=True)): one entry per call of simplify /
+                                  coalesc / freeze / select_spill / assign_colors:
+                                  {"ev": method, "x": the element the method took (node = smallest rid of its
+                                   temps; move = iid), "post": projection of the work lists after the call,
+                                   assign_colors: "assign": [[node, machine register rid or 0]...] in pop order}
+  "graphs": [graph...]            per round (steps=True): the interference graph and moves init_data built:
+                                  {"nodes": [[node, class index, pre-coloured register rid or 0]...],
+                                   "edges": [[node, node]...], "moves": [[iid, dst node, src node]...],
+                                   "classes": [{"n": name, "regs": [rid...]}...], "sub": [[bool]] (issubclass),
+                                   "alias": {rid: [rid...]}   (the allocator's own alias table: its input),
+                                   "init": projection of the work lists init_data produced}
   "rewrites": [{"round", "before":[ins], "after":[ins], "slot": k, "temps":[rid],
                 "blocks":[{"k":"load"|"store", "reg": rid, "slot": k, "ins":[iid...]}]}]
   "premove": [iid...], "postmove": [iid...]     frame.instructions around remove_redundant_moves
@@ -25,7 +35,8 @@ register `type(reg).from_num(reg.color)` it denotes):
   "emitted": [ins...]                           frame.instructions when alloc_frame returns
   "colour": [phys rid or 0 per rid]             after alloc_frame returns (0 = none)
  }
- ins = {"i": iid, "u": [rid...], "d": [rid...], "c": [rid...], "j": [iid...], "m": bool, "t": text}
+ ins = {"i": iid, "u": [rid...], "d": [rid...], "c": [rid...], "j": [iid...], "m": bool, "t": text,
+        "k": instruction class name}
 """
 import contextlib
 
@@ -51,7 +62,7 @@ class FrameRecord:
         self.regs = []
         self.slots = _Ids()
         self.rec = {"arch": str(getattr(arch, "name", arch)), "fn": str(getattr(frame, "name", "?")), "ok": True,
-                    "exc": "", "regs": self.regs, "rounds": [], "steps": [], "rewrites": [], "premove": [],
+                    "exc": "", "regs": self.regs, "rounds": [], "steps": [], "graphs": [], "rewrites": [], "premove": [],
                     "postmove": [], "coalesced": [], "emitted": [], "colour": []}
         self.pending_blocks = None
         try:
@@ -125,7 +136,7 @@ class FrameRecord:
                 "d": [self.rid(r) for r in obj.defined_registers],
                 "c": [self.rid(r) for r in (getattr(obj, "clobbers", ()) or ())],
                 "j": [self.ins_ids.get(j) for j in (getattr(obj, "jumps", ()) or ())],
-                "m": bool(getattr(obj, "ismove", False)), "t": text}
+                "m": bool(getattr(obj, "ismove", False)), "t": text, "k": type(obj).__name__}
 
     def snapshot(self, instructions):
         return [self.ins(i) for i in instructions]
@@ -188,11 +199,18 @@ def recording(sink, steps=False):
             sink(fr.rec)
 
     def init_data(self, frame):
-        if cur:
-            fr = cur[-1]
-            fr.rec["rounds"].append(fr.snapshot(frame.instructions))
-            fr.rec["steps"].append([])
-        return orig["init_data"](self, frame)
+        if not cur:
+            return orig["init_data"](self, frame)
+        fr = cur[-1]
+        fr.rec["rounds"].append(fr.snapshot(frame.instructions))
+        fr.rec["steps"].append([])
+        res = orig["init_data"](self, frame)
+        if steps:
+            try:
+                fr.rec["graphs"].append(_graph(self, fr, nid))
+            except Exception as e:
+                fr.rec["graphs"].append({"exc": type(e).__name__})
+        return res
 
     def rewrite_program(self, node):
         if not cur:
@@ -240,21 +258,34 @@ def recording(sink, steps=False):
     def step_wrapper(name):
         def step(self, *a):
             fr = cur[-1] if cur else None
-            pre = None
-            if fr is not None:
-                try:
-                    pre = _irc_state(self, fr, nid)
-                except Exception:
-                    pre = None
+            if fr is None:
+                return orig[name](self, *a)
+            x, before = 0, None
+            try:   # what the method is about to take (OrderedSet.pop() returns the first element)
+                if name == "simplify":
+                    x = nid(fr, next(iter(self.simplify_worklist)))
+                elif name == "coalesc":
+                    x = fr.ins_ids.get(next(iter(self.worklistMoves)))
+                elif name == "freeze":
+                    x = nid(fr, next(iter(self.freeze_worklist)))
+                elif name == "select_spill":
+                    before = {nid(fr, n) for n in self.spill_worklist}
+                elif name == "assign_colors":
+                    before = list(reversed(self.select_stack))
+            except Exception:
+                x = -1
             res = orig[name](self, *a)
-            if fr is not None and pre is not None:
-                try:
-                    ev = {"ev": name, "pre": pre, "post": _irc_state(self, fr, nid)}
-                    if name == "assign_colors":
-                        ev["spilled"] = [nid(fr, n) for n in res]
-                    fr.rec["steps"][-1].append(ev)
-                except Exception:
-                    pass
+            try:
+                ev = {"ev": name, "x": x, "post": _irc_state(self, fr, nid)}
+                if name == "select_spill":
+                    gone = sorted(before - {nid(fr, n) for n in self.spill_worklist})
+                    ev["x"] = gone[0] if len(gone) == 1 else -1
+                if name == "assign_colors":
+                    ev["assign"] = [[nid(fr, n), fr.rid(n.reg) if n.reg is not None else 0] for n in before]
+                    ev["spilled"] = [nid(fr, n) for n in res]
+                fr.rec["steps"][-1].append(ev)
+            except Exception as e:
+                fr.rec["steps"][-1].append({"ev": name, "x": -1, "post": {}, "exc": type(e).__name__})
             return res
 
         return step
@@ -276,6 +307,29 @@ def recording(sink, steps=False):
             setattr(A, n, fn)
         for n, fn in gorig.items():
             setattr(G, n, fn)
+
+
+def _graph(alloc, fr, nid):
+    """The interference graph, the moves and the register tables the allocator works on (after init_data)."""
+    ig = alloc.frame.ig
+    ctypes = []
+
+    def cidx(t):
+        if t not in ctypes:
+            ctypes.append(t)
+        return ctypes.index(t) + 1
+
+    for t in alloc.K:
+        cidx(t)
+    nodes = [[nid(fr, n), cidx(n.reg_class), fr.rid(n.reg) if n.reg is not None else 0] for n in ig.nodes]
+    edges = sorted({tuple(sorted((nid(fr, n), nid(fr, m)))) for n in ig.nodes for m in ig.adj_map[n]})
+    moves = [[fr.ins_ids.get(m), nid(fr, alloc.node(m.defined_registers[0])), nid(fr, alloc.node(m.used_registers[0]))]
+             for m in alloc.moves]
+    classes = [{"n": t.__name__, "regs": [fr.rid(r) for r in alloc.cls_regs.get(t, ())]} for t in ctypes]
+    sub = [[bool(issubclass(a, b)) for b in ctypes] for a in ctypes]
+    alias = {str(fr.rid(r)): [fr.rid(q) for q in al] for r, al in alloc.alias.items()}
+    return {"nodes": nodes, "edges": [list(e) for e in edges], "moves": moves, "classes": classes, "sub": sub,
+            "alias": alias, "init": _irc_state(alloc, fr, nid)}
 
 
 def _irc_state(alloc, fr, nid):
